@@ -9,7 +9,8 @@ import os
 import subprocess
 import time
 
-from . import core, wiregen, wireref
+from . import core
+from . import tok, wiregen, wireref
 
 ID = "C03"
 DRIVER = "wire"
@@ -202,9 +203,97 @@ def build_release_driver():
         return rc == 0, out
 
 
+def server_stack_probe(ctx):
+    """The property speaks about the stack of a SERVER worker thread: send the maximal backward pointer
+    chain (and two shorter ones) to the real release `resolved` binary over TCP and check that the
+    process survives and keeps answering.  (The decoder proofs bound the number of nested calls; the
+    bytes per frame and the thread stack size are the compiler's / the runtime configuration's.)"""
+    import socket
+    from . import p_c09
+    fails = []
+    info = {"server_probe": {}}
+    ok, out = p_c09.build_release_binaries()
+    if not ok:
+        return ([core.Failure("server-probe-build-failed", "release build of resolved failed: " + core.trunc(out[-600:], 600),
+                              found_input=False)], info)
+    cfg = {"zones": [], "hosts": [(0x01020304, "www.example.com.")], "cache_size": 16, "protocol_mode": "only-v4", "mode": "A"}
+    try:
+        srv = p_c09.Server(cfg, os.path.join(ctx["run_dir"], "c03-server"))
+    except Exception as e:  # configuration shape changed: report as a broken probe, not silently
+        return ([core.Failure("server-probe-broken", "could not start the server probe: %r" % (e,), found_input=False)], info)
+    try:
+        if not srv.wait_ready():
+            return ([core.Failure("server-probe-broken", "resolved did not come up for the stack probe", found_input=False)], info)
+        sent = 0
+        for hops in (wiregen.MAX_CHAIN_PTRS, wiregen.MAX_CHAIN_PTRS // 2, 1500):
+            msg = wiregen.chain_message(hops)
+            if len(msg) > 65535:
+                continue
+            try:
+                c = socket.create_connection(srv.addr, timeout=5)
+                c.sendall(len(msg).to_bytes(2, "big") + msg)
+                c.shutdown(socket.SHUT_WR)
+                c.settimeout(5)
+                try:
+                    while c.recv(65536):
+                        pass
+                except OSError:
+                    pass
+                c.close()
+            except OSError:
+                pass
+            sent += 1
+            time.sleep(0.05)
+            alive = srv.proc.poll() is None
+            answered = False
+            if alive:
+                probe = p_c09.simple_query("www.example.com.", tok.A, ident=0x4242)
+                for _ in range(20):
+                    u = socket.socket(socket.AF_INET, socket.SOCK_DGRAM)
+                    try:
+                        u.settimeout(0.5)
+                        u.sendto(probe, srv.addr)
+                        r = u.recv(2048)
+                        if r[:2] == probe[:2]:
+                            answered = True
+                            break
+                    except OSError:
+                        pass
+                    finally:
+                        u.close()
+                    if srv.proc.poll() is not None:
+                        break
+            if not (alive and answered):
+                fails.append(core.Failure(
+                    "server-stack-overflow",
+                    "the release resolved binary %s after a well-formed TCP message whose name is a backward pointer chain of %d hops (%d octets)"
+                    % ("exited with status %s" % srv.proc.poll() if srv.proc.poll() is not None else "stopped answering", hops + 1, len(msg)),
+                    case="C03-server-probe tcp " + msg.hex()[:200] + "...", impl="exit status %s" % srv.proc.poll()))
+                break
+        info["server_probe"] = {"messages": sent, "max_hops": wiregen.MAX_CHAIN_PTRS + 1, "alive_at_end": srv.proc.poll() is None}
+        info["evaluations"] = sent
+        info["distinct_nontrivial"] = sent
+    finally:
+        try:
+            srv.proc.kill()
+            srv.proc.wait(timeout=5)
+            srv.log.close()
+        except Exception:
+            pass
+    return fails, info
+
+
 def extra(ctx):
+    pf, pinfo = server_stack_probe(ctx)
     if ctx["tier"] != "thorough":
-        return [], {}
+        return pf, pinfo
+    f2, i2 = thorough_extra(ctx)
+    i2.update(pinfo)
+    i2["evaluations"] = i2.get("evaluations", 0) + pinfo.get("evaluations", 0)
+    return pf + f2, i2
+
+
+def thorough_extra(ctx):
     t0 = time.time()
     ok, out = build_release_driver()
     build_s = round(time.time() - t0, 1)
